@@ -8,7 +8,7 @@ one() {
   d=$1
   name=$(basename "$d")
   prop=$(python3 -c "import json;print(json.load(open('$d/meta.json'))['property'])")
-  extra=$(python3 -c "import json;m=json.load(open('$d/meta.json'));print(','.join(c for c,v in m.get('checks',{}).items() if v.get('detected') and c!='$prop'))")
+  extra=$(python3 -c "import json;m=json.load(open('$d/meta.json'));print(','.join(c for c,v in m.get('checks',{}).items() if c!='$prop'))")
   python3 tools/seeded.py "$prop" "$d" --name "$name" --tier "$tier" ${extra:+--checks "$extra"} > "/tmp/seeded_$name.log" 2>&1
   python3 - "$d" <<'PY'
 import json, sys
